@@ -23,8 +23,8 @@ Proof. vm_compute. reflexivity. Qed.
 (* the modelled transformers run in this relative order (what the other slices assume) *)
 Lemma gen_transformer_order_modelled :
   filter (fun n => str_in n modelled_transformers) gen_transformer_order =
-  ["NamespaceTransformer"; "PrefixTransformer"; "SuffixTransformer"; "LabelTransformer"; "AnnotationsTransformer";
-   "ReplicaCountTransformer"; "ImageTagTransformer"].
+  ["PatchTransformer"; "NamespaceTransformer"; "PrefixTransformer"; "SuffixTransformer"; "LabelTransformer";
+   "AnnotationsTransformer"; "ReplicaCountTransformer"; "ImageTagTransformer"].
 Proof. vm_compute. reflexivity. Qed.
 
 Lemma pipe_rules_ok : exists rules, pipe_rules = Ok rules.
@@ -219,6 +219,7 @@ Proof.
   unfold build. destruct t as [docs|n d ents]; [discriminate|].
   destruct (accumulate nonstr (PDir n d ents)) as [m| | |]; cbn [bind]; try discriminate.
   destruct (mapM (hash_res nonstr) m) as [m1| | |]; cbn [bind]; try discriminate.
+  destruct (hash_check m1) as [[]| | |]; cbn [bind]; try discriminate.
   destruct pipe_rules as [rules| | |]; cbn [bind]; try discriminate.
   destruct (nameref_transform pipe_cs nonstr rules m1) as [m2| | |]; cbn [bind]; try discriminate.
   destruct (ignore_local m2) as [m2l| | |]; cbn [bind]; try discriminate.
@@ -426,6 +427,7 @@ Section Ids.
     unfold build. destruct t as [docs|n d ents]; [discriminate|].
     destruct (accumulate nonstr (PDir n d ents)) as [m| | |]; cbn [bind]; try discriminate.
     destruct (mapM (hash_res nonstr) m) as [m1| | |]; cbn [bind]; try discriminate.
+    destruct (hash_check m1) as [[]| | |]; cbn [bind]; try discriminate.
     destruct pipe_rules as [rules| | |]; cbn [bind]; try discriminate.
     destruct (nameref_transform pipe_cs nonstr rules m1) as [m2| | |]; cbn [bind]; try discriminate.
     destruct (ignore_local m2) as [m2l| | |]; cbn [bind]; try discriminate.
@@ -445,6 +447,7 @@ Section Ids.
     intros Ho. unfold build. destruct t as [docs|n d ents]; [discriminate|].
     destruct (accumulate nonstr (PDir n d ents)) as [m| | |] eqn:EA; cbn [bind]; try discriminate.
     destruct (mapM (hash_res nonstr) m) as [m1| | |] eqn:EH; cbn [bind]; try discriminate.
+    destruct (hash_check m1) as [[]| | |]; cbn [bind]; try discriminate.
     destruct pipe_rules as [rules| | |] eqn:ER0; cbn [bind]; try (intros X; discriminate X).
     assert (ER : effective_rules gen_gvk_order_first gen_gvk_order_last gen_nameref_raw = Ok rules)
       by (rewrite <- pipe_rules_eq; exact ER0).
@@ -574,9 +577,10 @@ End Wrap.
 Definition respell (d : pdirs) : pdirs :=
   match pd_common_labels d with
   | [] => d
-  | cl => mkPDirsX (pd_ns d) (pd_prefix d) (pd_suffix d)
+  | cl => mkPDirsP (pd_ns d) (pd_prefix d) (pd_suffix d)
                    (pd_labels d ++ [Labels.mkLD cl true false []]) []
                    (pd_common_annos d) (pd_cmgens d) (pd_secgens d) (pd_genopts d) (pd_replicas d) (pd_images d)
+                   (pd_patches d)
   end.
 
 (* rewrite the layers selected by [which] (by directory name), anywhere in the tree *)
@@ -645,6 +649,7 @@ Section Respell.
   Proof.
     destruct (pd_common_labels d) as [|cl0 clt] eqn:E; [unfold respell; rewrite E; reflexivity|].
     unfold run_kind.
+    destruct (String.eqb k "PatchTransformer"); [unfold respell; rewrite E; reflexivity|].
     destruct (String.eqb k "NamespaceTransformer"); [unfold respell; rewrite E; reflexivity|].
     destruct (String.eqb k "PrefixTransformer"); [unfold respell; rewrite E; reflexivity|].
     destruct (String.eqb k "SuffixTransformer"); [unfold respell; rewrite E; reflexivity|].
@@ -787,3 +792,27 @@ Proof.
     intros x [<-|[]]. vm_compute. reflexivity.
   - eexists. split; [vm_compute; reflexivity|reflexivity].
 Qed.
+
+(* ---------- the comparator of the legacy sort (with or without the rank guard of /repo fc14842) is asymmetric ---------- *)
+From KV Require Base.StrOrder Res.LegacySortProofs.
+From Coq Require Import ZArith Lia.
+
+Lemma legacy_less_g_asym guarded first last a b :
+  LegacySort.legacy_less_g guarded first last a b = true -> LegacySort.legacy_less_g guarded first last b a = false.
+Proof.
+  unfold LegacySort.legacy_less_g. rewrite (LegacySortProofs.gvk_eqb_sym (LegacySort.id_gvk b)).
+  destruct (LegacySort.gvk_eqb (LegacySort.id_gvk a) (LegacySort.id_gvk b)); cbn [negb].
+  - apply StrOrder.sltb_asym.
+  - generalize (LegacySort.id_gvk a) (LegacySort.id_gvk b). clear a b. intros a b.
+    unfold LegacySort.gvk_less_than_g.
+    rewrite (Z.eqb_sym (LegacySort.type_order first last (LegacySort.g_kind b))).
+    destruct (Z.eqb (LegacySort.type_order first last (LegacySort.g_kind a))
+                    (LegacySort.type_order first last (LegacySort.g_kind b))) eqn:E; cbn [negb].
+    + apply Z.eqb_eq in E. rewrite <- E.
+      rewrite (andb_comm (String.eqb (LegacySort.g_kind b) _)), (orb_comm (String.eqb (LegacySort.g_group b) _)).
+      match goal with |- (if ?c then _ else _) = true -> _ => destruct c end; apply StrOrder.sltb_asym.
+    + intros H. apply Z.ltb_lt in H. apply Z.ltb_ge. lia.
+Qed.
+
+Lemma res_less_asym first last a b : res_less first last a b = true -> res_less first last b a = false.
+Proof. unfold res_less. apply legacy_less_g_asym. Qed.
